@@ -729,7 +729,15 @@ func (c *pathBuilderVisitor) fieldIsChildNode(plannerIdx int) bool {
 	path := c.walker.Path.DotDelimitedString()
 	plannerPath := c.planners[plannerIdx].ParentPath()
 	fieldPath := strings.TrimPrefix(path, plannerPath)
-	return strings.ContainsAny(fieldPath, ".")
+	// Inline fragment path elements ("$0User") are not levels of the response: a field that sits
+	// directly inside a fragment on the planner's parent (`parent { ... on User { field } }`) is
+	// still a root field of the fetch.
+	for _, element := range strings.Split(fieldPath, ".") {
+		if element != "" && !strings.HasPrefix(element, "$") {
+			return true
+		}
+	}
+	return false
 }
 
 // recordFieldPlannedOn - records the planner id on which the field was planned
